@@ -110,8 +110,13 @@ class _EncNS:
 LEVELS = [None]
 
 
+REPS = [None]
+
+
 def _s_read_data(fobj, coding, count, bit_width, out=None):
     CALLS[0].append(("levels", count, bit_width))
+    if REPS[0] is not None and len([c for c in CALLS[0] if c[0] == "levels"]) == 1:
+        return Vec(REPS[0])            # a nested column: repetition levels come first
     return Vec(LEVELS[0])
 
 
@@ -213,3 +218,77 @@ def replay_h_page_v1(levels, bit_width, page_bytes, groups):
         return (not ok), info
     return None, "no file-level driver for this page kind (encoding %s, optional=%s, selfmade=%s)" % (
         ENC, OPTIONAL, SELFMADE)
+
+
+# ------------------------------------------------------------------ nested column: both level streams ---
+NESTED_HELPER = SchemaHelper([
+    parquet_thrift.SchemaElement(name="schema", num_children=1),
+    parquet_thrift.SchemaElement(name="x", num_children=1, repetition_type=1, converted_type=3),
+    parquet_thrift.SchemaElement(name="list", num_children=1, repetition_type=2),
+    parquet_thrift.SchemaElement(name="element", type=2, repetition_type=1)])
+
+
+def _valid_lists(rep, levels):
+    # an entry continuing a row is an element (level >= 2) of a row that started with an element
+    for k in range(len(rep)):
+        if rep[k] == 1 and (levels[k] < 2 or levels[k - 1] < 2):
+            return False
+    return True
+
+
+def _dremel(levels, rep):
+    rows, vi = [], 0
+    for k in range(len(rep)):
+        elem = None
+        if levels[k] == 3:
+            elem = 100 + vi
+            vi += 1
+        if rep[k] == 0:
+            rows.append(None if levels[k] == 0 else ([] if levels[k] == 1 else [elem]))
+        else:
+            rows[-1].append(elem)
+    return rows
+
+
+def h_page_v1_nested(rep: List[int], levels: List[int], page_bytes: int) -> bool:
+    """
+    pre: 1 <= len(rep) <= 3 and len(levels) == len(rep) and rep[0] == 0 and all(0 <= x <= 1 for x in rep)
+    pre: all(0 <= x <= 3 for x in levels) and 16 <= page_bytes <= 4096 and _valid_lists(rep, levels)
+    post: __return__
+    """
+    # a v1 page of an optional LIST<optional INT64> column: the repetition levels are handed back whatever they are
+    # (a page in which no row has a second element is still a page of lists), the definition levels whenever an entry
+    # is below the maximum, and as many values are decoded as there are entries at the maximum level
+    n = len(rep)
+    path = ["x", "list", "element"]
+    daph = parquet_thrift.DataPageHeader(num_values=n, encoding=parquet_thrift.Encoding.PLAIN)
+    ph = parquet_thrift.PageHeader(type=0, data_page_header=daph, compressed_page_size=page_bytes,
+                                   uncompressed_page_size=page_bytes)
+    md = parquet_thrift.ColumnMetaData(type=2, path_in_schema=path, num_values=n, codec=0)
+    LEVELS[0], REPS[0], CALLS[0] = list(levels), list(rep), []
+    io = _IO(page_bytes)
+    saved = (core.encoding, core.read_data, core.read_plain, core.np, core._read_page, _EncNS.NumpyIO)
+    core.encoding, core.read_data, core.read_plain, core.np = _EncNS, _s_read_data, _s_read_plain, _NPs
+    core._read_page = lambda f, header_, metadata: ("bytes", page_bytes)
+    _EncNS.NumpyIO = staticmethod(lambda x: io if isinstance(x, tuple) else ("out", x))
+    try:
+        defi, r, values = core.read_data_page(None, NESTED_HELPER, ph, md, skip_nulls=False, selfmade=False)
+    finally:
+        core.encoding, core.read_data, core.read_plain, core.np, core._read_page, _EncNS.NumpyIO = saved
+        REPS[0] = None
+    nval = len([x for x in levels if x == 3])
+    if r is None or r.items != list(rep):
+        return False
+    if nval == n:
+        if defi is not None:
+            return False
+    elif defi is None or defi.items != list(levels):
+        return False
+    return len(values) == nval and [c for c in CALLS[0] if c[0] == "levels"] == [("levels", n, 1), ("levels", n, 2)]
+
+
+def replay_h_page_v1_nested(rep, levels, page_bytes):
+    """a LIST column file built from the specification whose single v1 page carries these level streams"""
+    from vf.pyxlift import nested_file
+    want = _dremel(list(levels), list(rep))
+    return nested_file.replay_list(list(levels), list(rep), [], True, True, 3, want)
